@@ -19,7 +19,7 @@
 From Sdns Require Import Common.Base Gen.C19 C19.Model
   C19.Proofs_arith C19.Proofs_policy C19.Proofs_edns C19.Proofs_cache C19.Proofs_tree
   Common.GoList C19.WireOpt C19.Proofs_wire C19.WireReq C19.Proofs_wirereq C19.WirePacket C19.Proofs_wirepacket
-  C19.Exit C19.Proofs_exit.
+  C19.Exit C19.Proofs_exit C19.Proofs_opts.
 From Sdns Require C05.Model.
 Open Scope N_scope.
 
@@ -577,3 +577,114 @@ Theorem exit_example_thm :
   exit_reply_counts b (mk_ipb 4 3325256711) q = [0].
 Proof. exact exit_example. Qed.
 Print Assumptions exit_example_thm.
+
+(* ---------------------------------------------------------------- the exit in resolver mode *)
+(* WHERE QUERIES LEAVE THE PROCESS, resolver mode.  For every configuration (valid, invalid, none),
+   client address, additional section of the client's query, delegation chain of any length with any
+   pattern of truncating servers (TCP retries), with or without a glue-less delegation (which makes the
+   resolver ask questions of its own through its internal sub-pipeline), whether or not the client's name
+   is an alias whose target the cache layer chases through an internal sub-query: each query that goes onto the
+   wire — to the root, a TLD, the zone's server; minimised question or full; first attempt or TCP retry —
+   carries exactly one OPT record; a question of the resolver's own carries NO option at all; on the
+   client's own line every option is the clamp of a subnet option the client sent, for an eligible
+   client, at most one, none for an ineligible client, none when the client sent no subnet option, none
+   under an invalid configuration. *)
+Theorem only_the_clamped_subnet_leaves_through_the_resolver : forall b remote extra glueless alias hops q,
+  In q (exit_resolver b remote extra glueless alias hops) ->
+  let client := addr_from_slice_unmap remote in
+  let out := all_options (rq_extra q) in
+  count_opt (rq_extra q) = 1%nat /\
+  (rq_own q = false -> out = []) /\
+  (forall o, In o out -> exists e, o = OEcs e /\ allows (policy_of b) client = true /\
+                                   exists cs, In (OEcs cs) (all_options extra) /\ clamp (policy_of b) (Some cs) = Some e) /\
+  (length out <= 1)%nat /\
+  (allows (policy_of b) client = false -> out = []) /\
+  (has_ecs (all_options extra) = false -> out = []) /\
+  (build_valid b = false -> out = []).
+Proof. exact exit_resolver_private. Qed.
+Print Assumptions only_the_clamped_subnet_leaves_through_the_resolver.
+
+(* every hop and every retry of the client's line repeats the stripped request; the resolver's own
+   questions are the same octets whoever the client is and whatever it sent *)
+Theorem resolver_hops_and_retries_repeat_the_stripped_request : forall b remote extra glueless alias hops q1 q2,
+  In q1 (exit_resolver b remote extra glueless alias hops) -> In q2 (exit_resolver b remote extra glueless alias hops) ->
+  rq_own q1 = rq_own q2 -> rq_extra q1 = rq_extra q2.
+Proof. exact exit_resolver_own_agree. Qed.
+Print Assumptions resolver_hops_and_retries_repeat_the_stripped_request.
+
+Theorem resolver_own_questions_are_blind_to_the_client : forall b r1 r2 e1 e2 g1 g2 a1 a2 h1 h2 q1 q2,
+  In q1 (exit_resolver b r1 e1 g1 a1 h1) -> In q2 (exit_resolver b r2 e2 g2 a2 h2) ->
+  rq_own q1 = false -> rq_own q2 = false -> rq_extra q1 = rq_extra q2.
+Proof. exact exit_resolver_sub_blind. Qed.
+Print Assumptions resolver_own_questions_are_blind_to_the_client.
+
+Theorem badvers_query_never_reaches_an_authority : forall b remote extra glueless alias hops o,
+  last_opt extra = Some o -> o_version o <> 0 -> exit_resolver b remote extra glueless alias hops = [].
+Proof. exact exit_resolver_badvers. Qed.
+Print Assumptions badvers_query_never_reaches_an_authority.
+
+(* the statement about the process's own questions is not vacuous: an alias always causes one *)
+Theorem an_alias_chase_is_a_question_of_the_process_s_own : forall b remote extra glueless hops,
+  (match last_opt extra with Some o => o_version o =? 0 | None => true end) = true ->
+  exists q, In q (exit_resolver b remote extra glueless true hops) /\ rq_own q = false.
+Proof. exact exit_resolver_chase_occurs. Qed.
+Print Assumptions an_alias_chase_is_a_question_of_the_process_s_own.
+
+Theorem exit_resolver_example_thm :
+  let b := mk_bargs true 0 0 0 0 [] in
+  let q := [ROpt (mk_optrr 0 [OEcs (mk_ecs 1 32 0 (mk_ipb 4 3405803853)); OOther 10])] in
+  let fw := [ROpt (mk_optrr 0 [OEcs (mk_ecs 1 24 0 (mk_ipb 4 3405803776))])] in
+  let bare := [ROpt (mk_optrr 0 [])] in
+  exit_resolver b (mk_ipb 4 3325256711) q true true [0; 0; 1] =
+    [mk_rq true 0 false fw; mk_rq true 1 false fw; mk_rq false 0 false bare; mk_rq false 1 false bare;
+     mk_rq false 2 false bare; mk_rq true 2 false fw; mk_rq true 2 true fw; mk_rq false 2 false bare] /\
+  exit_resolver (mk_bargs false 0 0 0 0 []) (mk_ipb 4 3325256711) q false true [1; 0; 0] =
+    [mk_rq true 0 false bare; mk_rq true 0 true bare; mk_rq true 1 false bare; mk_rq true 2 false bare;
+     mk_rq false 0 false bare; mk_rq false 1 false bare; mk_rq false 2 false bare].
+Proof. exact exit_resolver_example. Qed.
+Print Assumptions exit_resolver_example_thm.
+
+(* ---------------------------------------------------------------- option filters, translated from the Go source *)
+(* THE MARKER.  edns.hasClientECS as srcgen translates it (dns.RR and dns.EDNS0 as sum types over the
+   dynamic types the code asserts): for EVERY message it answers true iff some OPT record of the
+   additional section — any of them, wherever it stands — carries a subnet option of any family; and
+   that is the model's client_has_ecs on the section as the drivers print it (abs_rr).  So the
+   theorems stated over client_has_ecs (client_ecs_marks_the_tree, the tree theorems' has_ecs input)
+   speak about the code's own loop. *)
+Theorem translated_marker_is_the_model_marker : forall req,
+  go_hasClientECS req = existsb rr_has_subnet (T_Msg_Extra req) /\
+  go_hasClientECS req = client_has_ecs (map abs_rr (T_Msg_Extra req)).
+Proof. intros req. split; [apply gen_hasClientECS|apply hasClientECS_is_model_marker]. Qed.
+Print Assumptions translated_marker_is_the_model_marker.
+
+(* THE REPLY FILTER.  edns.stripECS as translated: for EVERY option list the result is the list without
+   its subnet options — nothing else removed, order kept; counted as the model counts (ecs_count) the
+   result has ZERO subnet options: the [0] of reply_ecs_counts is what the code's own loop leaves. *)
+Theorem translated_reply_filter_removes_exactly_the_subnet_options : forall opts,
+  go_stripECS opts = filter (fun o => negb (is_subnet o)) opts /\
+  existsb is_subnet (go_stripECS opts) = false /\
+  ecs_count (map abs_opt (go_stripECS opts)) = 0 /\
+  map abs_opt (go_stripECS opts) = filter (fun o => negb (is_ecs o)) (map abs_opt opts).
+Proof.
+  intros opts. split; [apply gen_stripECS|]. split; [apply stripECS_no_subnet|].
+  split; [apply stripECS_count_zero|apply stripECS_keeps_others].
+Qed.
+Print Assumptions translated_reply_filter_removes_exactly_the_subnet_options.
+
+(* THE RELAY FILTER.  edns.keepRelayable as translated: of a downstream response's OPT exactly the Extended
+   DNS Errors are passed on — never a subnet option an upstream echoed. *)
+Theorem translated_relay_filter_keeps_only_ede : forall opts,
+  go_keepRelayable opts = filter is_ede opts /\ existsb is_subnet (go_keepRelayable opts) = false.
+Proof. intros opts. split; [apply gen_keepRelayable|apply keepRelayable_no_subnet]. Qed.
+Print Assumptions translated_relay_filter_keeps_only_ede.
+
+Theorem option_filters_example_thm :
+  let sub := I_EDNS0_of_EDNS0_SUBNET (mk_T_EDNS0_SUBNET 8 0 0 0 []) in
+  let ede := I_EDNS0_of_EDNS0_EDE (mk_T_EDNS0_EDE 18 []) in
+  let hdr := mk_T_RR_Header [] 41 1232 0 0 in
+  let extra := [I_RR_of_OPT (mk_T_OPT hdr [I_EDNS0_other 10; sub; ede]); I_RR_other 1 hdr; I_RR_of_OPT (mk_T_OPT hdr [])] in
+  go_hasClientECS (mk_T_Msg (mk_T_MsgHdr 0 false 0 false false true false false false false 0) false [] [] [] extra) = true /\
+  go_stripECS [I_EDNS0_other 10; sub; ede; sub] = [I_EDNS0_other 10; ede] /\
+  go_keepRelayable [I_EDNS0_other 10; sub; ede; sub] = [ede].
+Proof. exact opts_example. Qed.
+Print Assumptions option_filters_example_thm.
